@@ -93,6 +93,8 @@ let () =
       let f = split_tabs line in
       let id = f.(0) in
       incr cases;
+      (* a malformed line (e.g. a case file overwritten by a concurrent run) is a failure, not a crash *)
+      try
       match f.(1) with
       | "MX" ->
         let pat = bytes_of_string f.(2) and obs = f.(3) in
@@ -217,5 +219,10 @@ let () =
           if !samples < 4 && not (ea || eb) && String.length line < 400 then begin
             incr samples; Printf.printf "SAMPLE\t%s\n" line end
         end
-      | k -> fail id "CORR" "unknown_line_kind" k);
+      | k -> fail id "CORR" "unknown_line_kind" k
+      with
+      | Parse_error m -> fail id "CORR" "malformed_case_line" m
+      | Failure m -> fail id "CORR" "malformed_case_line" m
+      | Invalid_argument m -> fail id "CORR" "malformed_case_line" m
+      | Not_found -> fail id "CORR" "malformed_case_line" "not found");
   finish ()
